@@ -1,10 +1,12 @@
 import Varpulis.Lemmas.Zdd
+import Varpulis.Lemmas.ZddTable
 /-!
 # C07 — canonicity, reducedness, ordering, iteration order; gc
 
 Tree layer: a handle is modelled by the tree it denotes, so "same root" is tree equality.
-`gc` is the identity on trees (it rebuilds the same triples in a fresh table); that the
-real table realises this is checked on dumped tables by the Judge (`Driver/Zdd.lean: judgeDump`).
+Table layer (`Model/ZddTable.lean`): the `Vec` of nodes with `get_or_create`, `treeOf : Table → Ref → Z`
+and the invariant `TWF`; the statements of C07 are theorems about that table model, and the judge
+that inspects dumped tables of the real arena (`judgeTable`) is proved sound w.r.t. them.
 -/
 namespace Varpulis.Props.C07
 open Varpulis.Zdd
@@ -40,5 +42,63 @@ theorem reduced_nonempty (a : Z) (ra : Red a) (h : a ≠ .empty) : sets a ≠ []
 
 example : Ord 0 (union (fromSet [0, 2]) (fromSet [1])) ∧ Red (union (fromSet [0, 2]) (fromSet [1])) := by
   simp [union, fromSet, normalize, insertSorted, fromSorted, mk, Zdd.Ord, Red]
+
+/-! ## Table layer: the hash-consed node table -/
+section Table
+open Varpulis.ZddT
+
+/-- the empty arena is well-formed -/
+theorem empty_table_TWF : TWF #[] := twf_empty
+
+/-- `get_or_create` denotes `Zdd.mk` (zero-suppression rule) of the children's trees -/
+theorem treeOf_getOrCreate (t : Table) (h : TWF t) (v : Nat) (lo hi : Ref) (hlo : Valid t lo) (hhi : Valid t hi) :
+    treeOf (getOrCreate t v lo hi).1 (getOrCreate t v lo hi).2 = Zdd.mk v (treeOf t lo) (treeOf t hi) :=
+  tree_getOrCreate h.toBelow hlo hhi
+
+/-- `get_or_create` only appends: every stored node keeps its id, the returned ref is dereferenceable -/
+theorem getOrCreate_only_appends (t : Table) (v : Nat) (lo hi : Ref) (hlo : Valid t lo) :
+    Ext t (getOrCreate t v lo hi).1 ∧ Valid (getOrCreate t v lo hi).1 (getOrCreate t v lo hi).2 :=
+  ⟨getOrCreate_ext t v lo hi, getOrCreate_valid hlo⟩
+
+/-- appending never changes the tree of an existing ref (the argument written in the comment of
+`ZddArena::invalidate_caches`) -/
+theorem treeOf_stable (t t' : Table) (h : TWF t) (hx : Ext t t') (r : Ref) (hv : Valid t r) :
+    treeOf t' r = treeOf t r := tree_stable h.toBelow hx hv
+
+/-- `get_or_create` preserves the table invariant when the new variable is below both children
+(which every caller guarantees: `Ord (v+1)` of the children's trees) -/
+theorem getOrCreate_preserves_TWF (t : Table) (h : TWF t) (v : Nat) (lo hi : Ref) (hlo : Valid t lo) (hhi : Valid t hi)
+    (olo : Ord (v + 1) (treeOf t lo)) (ohi : Ord (v + 1) (treeOf t hi)) : TWF (getOrCreate t v lo hi).1 :=
+  twf_getOrCreate h hlo hhi olo ohi
+
+/-- every stored node is reduced with strictly increasing variables along every path:
+the tree of every valid ref is `Ord` and `Red` -/
+theorem stored_nodes_reduced_ordered (t : Table) (h : TWF t) (r : Ref) (hv : Valid t r) :
+    Ord 0 (treeOf t r) ∧ Red (treeOf t r) := ⟨tree_ord h hv, tree_red h hv⟩
+
+/-- canonicity of the unique table: `treeOf` is injective on valid refs -/
+theorem treeOf_inj (t : Table) (h : TWF t) (a b : Ref) (ha : Valid t a) (hb : Valid t b)
+    (heq : treeOf t a = treeOf t b) : a = b := tree_inj h ha hb heq
+
+/-- **two ZDDs in the same arena that denote the same family have the same root** -/
+theorem same_family_same_root (t : Table) (h : TWF t) (a b : Ref) (ha : Valid t a) (hb : Valid t b)
+    (hs : ∀ s, s ∈ sets (treeOf t a) ↔ s ∈ sets (treeOf t b)) : a = b := same_family_same_ref h ha hb hs
+
+/-- the executable well-formedness check run on dumped tables decides `TWF` -/
+theorem twf_decides_TWF (t : Table) : twf t = true ↔ TWF t := twf_iff
+
+/-- soundness of the judge that inspects the dumped node table of the real arena -/
+theorem judgeTable_sound (t : Table) (regs : List (Nat × Ref)) (model : Nat → Z)
+    (h : judgeTable t regs model = .ok) :
+    TWF t ∧ (∀ p ∈ regs, Valid t p.2 ∧ treeOf t p.2 = model p.1) ∧
+    (∀ p ∈ regs, ∀ q ∈ regs, (p.2 = q.2 ↔ ∀ s, s ∈ sets (model p.1) ↔ s ∈ sets (model q.1))) := judge_sound h
+
+/-- non-vacuity: a three-node table ({{1},{0,1}} and {{1}}) is well-formed and accepted by the judge -/
+example : TWF #[⟨1, .E, .B⟩, ⟨0, .N 0, .N 0⟩] ∧
+    judgeTable #[⟨1, .E, .B⟩, ⟨0, .N 0, .N 0⟩] [(0, .N 1), (1, .N 0)]
+      (fun r => if r = 0 then pwo (fromSet [1]) 0 else fromSet [1]) = .ok := by
+  refine ⟨twf_iff.1 (by decide), by decide⟩
+
+end Table
 
 end Varpulis.Props.C07
